@@ -45,6 +45,7 @@ class Author(models.Model):
     age = models.IntegerField()
     country = models.ForeignKey(Country, null=True, on_delete=models.SET_NULL,
                                 related_name="authors")
+    home = models.ForeignKey(Region, null=True, on_delete=models.SET_NULL, related_name="+")
 
     class Meta:
         app_label = "vp_djapp"
@@ -74,6 +75,7 @@ class Post(models.Model):
     rating = models.IntegerField()
     author = models.ForeignKey(Author, null=True, on_delete=models.SET_NULL,
                                related_name="posts")
+    home = models.ForeignKey(Country, null=True, on_delete=models.SET_NULL, related_name="+")
     tags = models.ManyToManyField(Tag, related_name="posts", db_table="post_tags")
 
     class Meta:
